@@ -878,7 +878,7 @@ Proof.
   - rewrite Hfn. exact Hmr.
 Qed.
 
-(* the repaired code (one size update per record) has no window at all *)
+(* the code as it is (one size update per record, fix 4751e05) has no window at all *)
 Theorem prefix_fixed cap recs sched :
   let s := run true cap sched (init recs) in
   match_recs (done s) (file (finish s)) = true
@@ -913,7 +913,15 @@ Proof.
   cbn in Hrecs. rewrite app_nil_r in Hrecs. rewrite <- Hrecs. exact Hm.
 Qed.
 
-(* the window is real: header without payload *)
+Theorem prefix_general_now cap recs sched :
+  let s := run true cap sched (init recs) in
+  exists rest, Matches (done s) (file (finish s)) /\ recs = done s ++ rest.
+Proof.
+  intro s. destruct (prefix_general true cap recs sched) as [bs [rest [Hm [Hf Hr]]]]. fold s in Hm, Hf, Hr.
+  cbn [extra] in Hf. rewrite app_nil_r in Hf. exists rest. rewrite Hf. split; assumption.
+Qed.
+
+(* the legacy window (two size updates per record with payload): header without payload *)
 Definition w_r1 : rec := {| r_time := 1000; r_type := 0; r_depth := 0; r_addr := 4096; r_pl := [1; 2; 3; 4; 5; 6; 7; 8]%N |}.
 Definition w_r2 : rec := {| r_time := 1100; r_type := 1; r_depth := 0; r_addr := 4096; r_pl := [] |}.
 Definition w_recs := [w_r1; w_r2].
